@@ -331,14 +331,14 @@ PROPS = {
         trusted=EXEC_TRUST + ["Cranelift lowers `trapz` to a trapping instruction (observed as SIGILL)"],
     ),
     "C12": dict(
-        suites=["exec-accepted-engines", "exec-engines#farjump,calls,helpers", "exec-anyprog-engines", "exec-pageboundary"], oracle=engine_oracle(["jit", "clif"]), level="proof", model_is_spec=True,
-        nontrivial=lambda line, impl: impl.split()[0] not in ("rejected", "bad-op"),
+        suites=["exec-accepted-engines", "exec-engines#farjump,calls,helpers", "exec-anyprog-engines", "exec-pageboundary", "api"], oracle=engine_oracle(["jit", "clif"]), level="proof", model_is_spec=True,
+        nontrivial=lambda line, impl: impl.split()[0] not in ("rejected", "bad-op") or line.startswith("api "),
         rule="suites exec-accepted-engines + exec-engines: every byte string of the C06 verify suite that the REAL verifier accepts (every opcode/register byte in every position, every displacement around the "
              "bounds and wide loads, every last-instruction kind incl. final ja, dead code, back edges, exit with any offset field, soups, mutants) is compiled TWICE by the x86-64 JIT and by Cranelift under "
              "catch_unwind; compared: Ok/Err/panic equality with the compile models (JitEmit.compile, ClifCompile.compile), the JIT's machine code BYTE FOR BYTE with the emitter model's (hook verif_jit_code; length and digest) "
              "and identical across the two compilations, emitted size = sized buffer (the hook slices at the second "
              "pass' offset inside the buffer the first pass sized; emit asserts guard the end). Long programs: div/mod at indexes up to 131071. Page boundary: programs whose machine code size sweeps byte by byte across 4096 on three VM kinds (sizing pass vs emission pass; hook: first-pass count = emitted length, buffer = page-rounded). Model validation beyond the claim: every 3rd whole-slot byte string of the verify suite, loaded through an accept-all verifier and only compiled, "
-             "must give the Ok/Err/panic the models predict (all panic sites exercised). Non-trivial: distinct accepted program (it was compiled).",
+             "must give the Ok/Err/panic the models predict (all panic sites exercised). Suite api: compilation depends on the program and helpers in force, not on earlier compilations (histories with re-registration and recompilation against the state-machine model). Non-trivial: distinct accepted program (it was compiled), distinct API history.",
         trusted=EXEC_TRUST + ["Cranelift-internal failures (define_function) are covered by the runs only"],
     ),
     "C18": dict(
